@@ -61,6 +61,7 @@ type env struct {
 	cp1, cp2    []byte // checkpoints of batch1 / batch2
 	msgSigned   uint64 // consensus message carrying B's signature, estimate, evidence
 	msgFresh    uint64 // consensus message B has not touched
+	msgErr      uint64 // consensus message carrying B's error report
 	contractID  uint64 // U's uploaded user smart contract
 	compassSCID uint64 // smart contract with an in-flight deployment record
 	rootPlain   sdk.Context
@@ -235,7 +236,7 @@ func (e *env) setup() {
 	for _, m := range before {
 		seen[m.GetId()] = true
 	}
-	for i := 0; i < 2; i++ {
+	for i := 0; i < 3; i++ {
 		e.tx(ctx, "exec", U, &schedtypes.MsgExecuteJob{JobID: "ujob1", Metadata: world.Meta(U)})
 	}
 	after, err := w.App.ConsensusKeeper.GetMessagesFromQueue(ctx, queueName, 0)
@@ -246,10 +247,12 @@ func (e *env) setup() {
 			fresh = append(fresh, m.GetId())
 		}
 	}
-	if len(fresh) != 2 {
-		panic(fmt.Sprintf("setup: expected 2 new queued messages, got %d (queue has %d)", len(fresh), len(after)))
+	if len(fresh) != 3 {
+		panic(fmt.Sprintf("setup: expected 3 new queued messages, got %d (queue has %d)", len(fresh), len(after)))
 	}
-	e.msgSigned, e.msgFresh = fresh[0], fresh[1]
+	e.msgSigned, e.msgFresh, e.msgErr = fresh[0], fresh[1], fresh[2]
+	// B's error report on message 3
+	e.tx(ctx, "error report", B.Actor, &consensustypes.MsgSetErrorData{Metadata: world.Meta(B.Actor), MessageID: e.msgErr, QueueTypeName: queueName, Data: []byte("reverted")})
 	// B's signature, gas estimate, evidence and delivery report on message 1
 	e.tx(ctx, "sign", B.Actor, &consensustypes.MsgAddMessagesSignatures{Metadata: world.Meta(B.Actor), SignedMessages: []*consensustypes.ConsensusMessageSignature{
 		{Id: e.msgSigned, QueueTypeName: queueName, Signature: e.signQueued(ctx, B, e.msgSigned), SignedByAddress: B.EthAddr()},
